@@ -21,6 +21,15 @@ import (
 func (k *Keeper) SetOperatorInfo(
 	ctx sdk.Context, addr string, info *operatortypes.OperatorInfo,
 ) (err error) {
+	return k.setOperatorInfo(ctx, addr, info, false /* genesis */)
+}
+
+// setOperatorInfo is the private version of SetOperatorInfo. With the genesis flag set, a
+// commission update time that is present in the genesis state (an exported chain) is kept,
+// so that an export / import does not restart the commission change cooldown.
+func (k *Keeper) setOperatorInfo(
+	ctx sdk.Context, addr string, info *operatortypes.OperatorInfo, genesis bool,
+) (err error) {
 	// #nosec G703 // already validated in `ValidateBasic`
 	opAccAddr, err := sdk.AccAddressFromBech32(addr)
 	if err != nil {
@@ -35,7 +44,9 @@ func (k *Keeper) SetOperatorInfo(
 		)
 	}
 	// TODO: add minimum commission rate module parameter and check that commission exceeds it.
-	info.Commission.UpdateTime = ctx.BlockTime()
+	if !genesis || info.Commission.UpdateTime.IsZero() {
+		info.Commission.UpdateTime = ctx.BlockTime()
+	}
 
 	if info.ClientChainEarningsAddr != nil {
 		for _, data := range info.ClientChainEarningsAddr.EarningInfoList {
